@@ -323,6 +323,93 @@ Proof.
   apply forallb_ext'. intros b. apply wf_block_norm.
 Qed.
 
+(* ---------- _restore_value_classes ---------- *)
+
+Lemma mapM_float_of xs : mapM float_of (map YFloat xs) = Some xs.
+Proof. induction xs as [|x xs IH]; [reflexivity|]. cbn [map mapM float_of]. rewrite IH. reflexivity. Qed.
+
+Lemma ccls_eqb_eq a b : ccls_eqb a b = true -> a = b.
+Proof. destruct a, b; try discriminate; reflexivity. Qed.
+
+Lemma skipn_defaults k : skipn (coord_arity k) (coord_defaults k) = [].
+Proof. destruct k; reflexivity. Qed.
+
+(* a value with the class the deserializer gives it comes back as itself *)
+Lemma restore_val_deser tv v : deser_val tv v = true -> restore_val tv (norm v) = Some v.
+Proof.
+  destruct v as [| b | z | b | s | c s | c u | k xs | c l | m | b | s]; intros H; cbn [deser_val] in H.
+  - destruct tv as [[k|]|]; reflexivity.
+  - destruct tv as [[k|]|]; reflexivity.
+  - destruct tv as [[k|]|]; reflexivity.
+  - destruct tv as [[k|]|]; reflexivity.
+  - destruct tv as [[k|]|]; reflexivity.
+  - destruct c; try discriminate H.
+    + destruct tv as [[k|]|]; try discriminate H; reflexivity.
+    + destruct tv as [[k|]|]; try discriminate H. reflexivity.
+  - destruct c; [|discriminate H]. reflexivity.
+  - destruct tv as [[k'|]|]; try discriminate H. apply andb_prop in H as [Hk Hl].
+    apply ccls_eqb_eq in Hk. subst k'. apply Nat.eqb_eq in Hl.
+    rewrite norm_coord. cbn [restore_val]. rewrite mapM_float_of, Hl, skipn_defaults, app_nil_r.
+    destruct k; reflexivity.
+  - destruct c; [|discriminate H]. apply andb_prop in H as [Hc Hp].
+    assert (E : norm (YSeq SList l) = YSeq SList l) by (apply plain_norm; exact Hp). rewrite E.
+    destruct tv as [[k|]|]; try discriminate Hc; reflexivity.
+  - assert (E : norm (YDict m) = YDict m) by (apply plain_norm; exact H). rewrite E.
+    destruct tv as [[k|]|]; reflexivity.
+  - destruct tv as [[k|]|]; reflexivity.
+  - destruct tv as [[k|]|]; reflexivity.
+Qed.
+
+Lemma restore_vars_deser tb b :
+  forallb (fun kv => deser_val (tb (fst kv)) (snd kv)) b = true -> restore_vars tb (norm_vars b) = Some b.
+Proof.
+  unfold restore_vars, norm_vars. induction b as [|[k v] b IH]; intros H; [reflexivity|].
+  cbn [forallb fst snd] in H. apply andb_prop in H as [H1 H2].
+  cbn [map mapM fst snd]. rewrite (restore_val_deser _ _ H1), (IH H2). reflexivity.
+Qed.
+
+Lemma restore_blocks_deser tb bl :
+  forallb (fun b => forallb (fun kv => deser_val (tb (fst kv)) (snd kv)) b) bl = true ->
+  mapM (restore_vars tb) (map norm_vars bl) = Some bl.
+Proof.
+  induction bl as [|b bl IH]; intros H; [reflexivity|]. cbn [forallb] in H. apply andb_prop in H as [H1 H2].
+  cbn [map mapM]. rewrite (restore_vars_deser _ _ H1), (IH H2). reflexivity.
+Qed.
+
+(* Message level: for a message with the deserializer's classes the restoration undoes the
+   normalisation, up to the class of extra and of acks *)
+Theorem restore_exact tk m : deser_classes tk m = true -> restore_msg tk (norm_msg m) = Some (flat m).
+Proof.
+  intros H. unfold deser_classes in H. apply andb_prop in H as [H Ha]. apply andb_prop in H as [Hb Hm].
+  destruct m as [nm bl p me dr sy di fl ec ex ac al]. unfold restore_msg, norm_msg, flat.
+  cbn [m_name m_blocks m_packet_id m_meta m_dropped m_synthetic m_direction m_flags m_extra m_acks m_acks_cls m_extra_cls] in *.
+  assert (E : mapM (fun b0 : list N * list (list (list N * yv)) =>
+                      match mapM (restore_vars (tk nm (fst b0))) (snd b0) with
+                      | Some l => Some (fst b0, l)
+                      | None => None
+                      end) (map (fun b0 => (fst b0, map norm_vars (snd b0))) bl) = Some bl).
+  { induction bl as [|[k l] bl IH]; [reflexivity|]. cbn [forallb fst snd] in Hb. apply andb_prop in Hb as [H1 H2].
+    cbn [map mapM fst snd]. rewrite (restore_blocks_deser _ _ H1), (IH H2). reflexivity. }
+  rewrite E. rewrite (plain_vars_norm _ Hm).
+  assert (Eal : map norm al = al).
+  { induction al as [|v al IH]; [reflexivity|]. cbn [forallb] in Ha. apply andb_prop in Ha as [H1 H2].
+    cbn [map]. rewrite plain_norm, IH by assumption. reflexivity. }
+  rewrite Eal. reflexivity.
+Qed.
+
+Lemma restore_fields tk m m' :
+  restore_msg tk m = Some m' -> m_direction m' = m_direction m /\ m_name m' = m_name m.
+Proof.
+  unfold restore_msg. destruct (mapM _ (m_blocks m)); [|discriminate]. intros H. injection H as <-. split; reflexivity.
+Qed.
+
+(* flat keeps everything Message.__eq__ and the exported tree read *)
+Lemma flat_facts tk m :
+  to_dict false (flat m) = to_dict false m /\ msg_tree (flat m) = msg_tree m /\ wf_msg (flat m) = wf_msg m
+  /\ deser_classes tk (flat m) = deser_classes tk m /\ flat (flat m) = flat m
+  /\ m_name (flat m) = m_name m /\ m_blocks (flat m) = m_blocks m.
+Proof. repeat split. Qed.
+
 (* ---------- the notation leg (C12) ---------- *)
 
 Section Entries.
@@ -331,6 +418,7 @@ Section Entries.
   Variable preal : list N -> option N.
   Variable pdate : list N -> option N.
   Variable summ : payload -> list N.
+  Variable tk : tmpl.
   Variable pyrepr : yv -> list N.
   Variable pyeval : list N -> option yv.
   Variable gz : list N -> list N.
@@ -358,6 +446,17 @@ Section Entries.
   Proof.
     intros Hm Hw Ho. rewrite of_notation_notation by assumption. cbn [bind].
     apply from_dict_norm_to_dict, Hm.
+  Qed.
+
+  (* ... followed by _restore_value_classes: a message with the deserializer's classes comes
+     back as itself (up to the class of extra and acks), and compares equal under Message.__eq__ *)
+  Theorem msg_import_exact m :
+    wf_msg m = true -> wfn (msg_tree m) = true -> ook (msg_tree m) = true -> deser_classes tk m = true ->
+    bind (bind (of_notation (notation (to_dict true m))) from_dict) (restore_msg tk) = Some (flat m)
+    /\ to_dict false (flat m) = to_dict false m.
+  Proof.
+    intros Hm Hw Ho Hd. rewrite msg_notation_roundtrip by assumption. cbn [bind].
+    split; [apply restore_exact, Hd|reflexivity].
   Qed.
 
   (* ---------- meta: UUIDs to text and back ---------- *)
@@ -457,9 +556,9 @@ Section Entries.
   (* ---------- one entry ---------- *)
 
   Notation entry_to_dict := (entry_to_dict rreal rdate summ).
-  Notation entry_from_dict := (entry_from_dict preal pdate).
-  Notation norm_entry := (norm_entry summ).
-  Notation entry_ok := (entry_ok rreal rdate preal pdate).
+  Notation entry_from_dict := (entry_from_dict preal pdate tk).
+  Notation norm_entry := (norm_entry summ tk).
+  Notation entry_ok := (entry_ok rreal rdate preal pdate tk).
 
   Theorem entry_roundtrip e :
     entry_ok e = true ->
@@ -471,7 +570,6 @@ Section Entries.
     destruct (meta_roundtrip _ H1 H2 H3) as [m1 [m2 [D1 D2]]].
     unfold Export.payload_ok in Hp. apply andb_prop in Hp as [Hp Hwf]. apply andb_prop in Hp as [Hw Ho].
     unfold Export.entry_to_dict, Export.norm_entry, Export.imported_meta. rewrite D1. cbn [bind]. rewrite D2.
-    eexists. eexists. split; [reflexivity|]. split; [reflexivity|].
     assert (Haid :
       (if y_truthy match le_agent_id e with Some a => YStr (uuid_text a) | None => YNone end
        then match match le_agent_id e with Some a => YStr (uuid_text a) | None => YNone end with
@@ -482,15 +580,20 @@ Section Entries.
       destruct (uuid_of_str_text a Ha) as [G1 G2]. cbn [y_truthy]. rewrite G2, G1. reflexivity. }
     destruct e as [rn aid sm meta [m|ev]];
       cbn [le_payload le_meta le_agent_id le_summary le_region_name type_name payload_tree norm_payload] in *.
-    - unfold Export.entry_from_dict.
+    - apply andb_prop in Hwf as [Hwf Hr].
+      destruct (restore_msg tk (norm_msg m)) as [m'|] eqn:Er; [|discriminate Hr].
+      destruct (restore_fields _ _ _ Er) as [Hdir _]. cbn [norm_msg m_direction] in Hdir.
+      eexists. eexists. split; [reflexivity|]. split; [reflexivity|].
+      unfold Export.entry_from_dict.
       rewrite yget_hd. change (beq K_LLUDP K_LLUDP) with true. cbn match.
       repeat (first [rewrite yget_hd | rewrite yget_tl by reflexivity]).
       fold (Export.notation rreal rdate (to_dict true m)).
-      rewrite (of_notation_notation _ Hw Ho). rewrite (from_dict_norm_to_dict m Hwf).
+      rewrite (of_notation_notation _ Hw Ho). rewrite (from_dict_norm_to_dict m Hwf). rewrite Er.
       unfold Export.apply_dict.
       repeat (first [rewrite yget_hd | rewrite yget_tl by reflexivity]).
-      rewrite Haid, D2. reflexivity.
-    - unfold Export.entry_from_dict.
+      rewrite Haid, D2. unfold base_meta. cbn [method_name type_name]. rewrite Hdir. reflexivity.
+    - eexists. eexists. split; [reflexivity|]. split; [reflexivity|].
+      unfold Export.entry_from_dict.
       rewrite yget_hd. change (beq K_EQ K_LLUDP) with false. change (beq K_EQ K_EQ) with true. cbn match.
       repeat (first [rewrite yget_hd | rewrite yget_tl by reflexivity]).
       fold (Export.notation rreal rdate ev).
@@ -516,7 +619,7 @@ Section Entries.
 
   Notation export_payload := (export_payload rreal rdate summ).
   Notation export_log_entries := (export_log_entries rreal rdate summ pyrepr gz).
-  Notation import_log_entries := (import_log_entries preal pdate pyeval gunz).
+  Notation import_log_entries := (import_log_entries preal pdate tk pyeval gunz).
 
   (* import_log_entries(export_log_entries(es)) = the normal forms of es, in order.
      repr / literal_eval and gzip are assumed inverse on the exported value only. *)
@@ -545,8 +648,10 @@ Section Entries.
 
   Theorem norm_entry_std e :
     std_meta (le_payload e) (le_meta e) = true ->
-    norm_entry e = Some (mkLE (Some (region_name e)) (le_agent_id e) (Some (summary summ e)) (le_meta e)
-                                 (norm_payload (le_payload e))).
+    norm_entry e = match norm_payload tk (le_payload e) with
+                   | Some p' => Some (mkLE (Some (region_name e)) (le_agent_id e) (Some (summary summ e)) (le_meta e) p')
+                   | None => None
+                   end.
   Proof.
     destruct e as [rn aid sm meta p]. cbn [le_payload le_meta le_agent_id le_summary le_region_name].
     intros H. unfold std_meta in H.
@@ -568,41 +673,38 @@ Section Entries.
     rewrite (hydrate_ok K_AgentID _ a) by (try assumption; reflexivity). cbn [bind].
     rewrite (hydrate_ok K_SelectedFull _ sf) by (try assumption; reflexivity). cbn [bind].
     rewrite (hydrate_ok K_SessionID _ s) by (try assumption; reflexivity).
-    rewrite Ea, Es, Ef.
-    assert (Hm : method_name (norm_payload p) = method_name p) by (destruct p; reflexivity).
-    assert (Ht : type_name (norm_payload p) = type_name p) by (destruct p; reflexivity).
-    unfold base_meta. rewrite Hm, Ht. reflexivity.
+    rewrite Ea, Es, Ef. reflexivity.
   Qed.
-End Entries.
 
-(* ---------- a second export / import changes nothing ---------- *)
+  (* ---------- exactness and stability ---------- *)
 
-Section Stable.
-  Variable rreal : N -> list N.
-  Variable rdate : N -> list N.
-  Variable preal : list N -> option N.
-  Variable pdate : list N -> option N.
-  Variable summ : payload -> list N.
+  (* the payload has the classes the deserializer / the llsd parser gives it *)
+  Definition exact_payload (p : payload) : bool :=
+    match p with PUdp m => deser_classes tk m | PEq ev => plain ev end.
+  Definition flat_payload (p : payload) : payload :=
+    match p with PUdp m => PUdp (flat m) | PEq ev => PEq ev end.
 
-  Lemma norm_payload_idem p : norm_payload (norm_payload p) = norm_payload p.
-  Proof. destruct p; cbn [norm_payload]; [rewrite norm_msg_idem|rewrite norm_idem]; reflexivity. Qed.
-
-  Lemma payload_tree_norm p : payload_tree (norm_payload p) = payload_tree p.
-  Proof. destruct p; cbn [norm_payload payload_tree]; [apply msg_tree_norm|apply tree_of_norm]. Qed.
-
-  Lemma payload_ok_norm p :
-    payload_ok rreal rdate preal pdate p = true -> payload_ok rreal rdate preal pdate (norm_payload p) = true.
+  Lemma norm_payload_exact p : exact_payload p = true -> norm_payload tk p = Some (flat_payload p).
   Proof.
-    unfold payload_ok. rewrite payload_tree_norm. intros H. apply andb_prop in H as [H1 H2]. rewrite H1. cbn [andb].
-    destruct p; cbn [norm_payload]; [rewrite wf_msg_norm; exact H2|reflexivity].
+    destruct p as [m|ev]; cbn [exact_payload norm_payload flat_payload]; intros H.
+    - rewrite (restore_exact tk m H). reflexivity.
+    - rewrite (plain_norm ev H). reflexivity.
   Qed.
 
-  Lemma std_meta_norm p meta : std_meta (norm_payload p) meta = std_meta p meta.
-  Proof.
-    assert (Hm : method_name (norm_payload p) = method_name p) by (destruct p; reflexivity).
-    assert (Ht : type_name (norm_payload p) = type_name p) by (destruct p; reflexivity).
-    unfold std_meta. rewrite Hm, Ht. reflexivity.
-  Qed.
+  (* a standard entry around a message with the deserializer's classes (every entry the
+     proxy logs from the wire): export / import gives the entry back EXACTLY - same region
+     name, agent id, summary, meta, and the same message: name, block lists, variables,
+     values and their classes, packet id, meta, flags, direction; extra as bytes, acks as a list *)
+  Theorem export_import_exact e :
+    std_meta (le_payload e) (le_meta e) = true -> exact_payload (le_payload e) = true ->
+    norm_entry e = Some (mkLE (Some (region_name e)) (le_agent_id e) (Some (summary summ e)) (le_meta e)
+                               (flat_payload (le_payload e))).
+  Proof. intros Hs Hx. rewrite (norm_entry_std e Hs), (norm_payload_exact _ Hx). reflexivity. Qed.
+
+  Lemma flat_payload_facts p :
+    exact_payload (flat_payload p) = exact_payload p /\ flat_payload (flat_payload p) = flat_payload p
+    /\ payload_tree (flat_payload p) = payload_tree p /\ std_meta (flat_payload p) = std_meta p.
+  Proof. destruct p; repeat split. Qed.
 
   Lemma is_huuid_ok v : is_none_or is_huuid v = true ->
     match v with YNone => true | YUuid _ u => uuid_ok u | _ => false end = true.
@@ -620,27 +722,40 @@ Section Stable.
     repeat split; repeat (first [rewrite yget_hd | rewrite yget_tl by reflexivity]); apply is_huuid_ok; assumption.
   Qed.
 
-  (* a standard entry: the imported entry is standard again, satisfies the hypotheses again, and
-     a further export / import leaves it as it is *)
-  Theorem export_import_stable e e' :
-    entry_ok rreal rdate preal pdate e = true -> std_meta (le_payload e) (le_meta e) = true ->
-    norm_entry summ e = Some e' ->
-    entry_ok rreal rdate preal pdate e' = true /\ std_meta (le_payload e') (le_meta e') = true
-    /\ norm_entry summ e' = Some e'.
+  Lemma payload_ok_flat p :
+    exact_payload p = true ->
+    payload_ok rreal rdate preal pdate tk p = true -> payload_ok rreal rdate preal pdate tk (flat_payload p) = true.
   Proof.
-    intros Hok Hstd Hn. rewrite (norm_entry_std summ e Hstd) in Hn. injection Hn as <-.
+    intros Hx. unfold payload_ok. destruct (flat_payload_facts p) as [_ [_ [Ht _]]]. rewrite Ht.
+    intros H. apply andb_prop in H as [H1 H2]. rewrite H1. cbn [andb].
+    destruct p as [m|ev]; cbn [flat_payload exact_payload] in *; [|reflexivity].
+    apply andb_prop in H2 as [H2 _]. change (wf_msg (flat m)) with (wf_msg m). rewrite H2. cbn [andb].
+    rewrite (restore_exact tk (flat m)); [reflexivity|exact Hx].
+  Qed.
+
+  (* ... and the imported entry is standard, exact and well formed again, and a fixed point:
+     exporting and importing an imported log reproduces it *)
+  Theorem export_import_stable e e' :
+    entry_ok e = true -> std_meta (le_payload e) (le_meta e) = true -> exact_payload (le_payload e) = true ->
+    norm_entry e = Some e' ->
+    entry_ok e' = true /\ std_meta (le_payload e') (le_meta e') = true /\ exact_payload (le_payload e') = true
+    /\ norm_entry e' = Some e'.
+  Proof.
+    intros Hok Hstd Hx Hn. rewrite (export_import_exact e Hstd Hx) in Hn. injection Hn as <-.
     cbn [le_payload le_meta le_agent_id].
-    assert (Hstd' : std_meta (norm_payload (le_payload e)) (le_meta e) = true) by (rewrite std_meta_norm; exact Hstd).
-    split; [|split; [exact Hstd'|]].
-    - unfold entry_ok in *. cbn [le_payload le_meta le_agent_id].
+    destruct (flat_payload_facts (le_payload e)) as [F1 [F2 [F3 F4]]].
+    assert (Hstd' : std_meta (flat_payload (le_payload e)) (le_meta e) = true) by (rewrite F4; exact Hstd).
+    assert (Hx' : exact_payload (flat_payload (le_payload e)) = true) by (rewrite F1; exact Hx).
+    split; [|split; [exact Hstd'|split; [exact Hx'|]]].
+    - unfold Export.entry_ok in *. cbn [le_payload le_meta le_agent_id].
       apply andb_prop in Hok as [Hok Ha]. apply andb_prop in Hok as [Hok H3]. apply andb_prop in Hok as [Hok H2].
       apply andb_prop in Hok as [Hp H1].
-      rewrite (payload_ok_norm _ Hp), H1, H2, H3, Ha. reflexivity.
-    - rewrite norm_entry_std by exact Hstd'.
+      rewrite (payload_ok_flat _ Hx Hp), H1, H2, H3, Ha. reflexivity.
+    - rewrite export_import_exact by assumption.
       cbn [le_payload le_meta le_agent_id]. unfold region_name, summary. cbn [le_region_name le_summary].
-      rewrite norm_payload_idem. reflexivity.
+      rewrite F2. reflexivity.
   Qed.
-End Stable.
+End Entries.
 
 (* ---------- freeze / thaw ---------- *)
 
@@ -807,17 +922,24 @@ Definition ex_uuid : list N := [0; 1; 2; 3; 4; 5; 6; 7; 8; 9; 10; 11; 12; 13; 14
 Definition F15 : N := 4609434218613702656.
 
 (* message "Foo": block list Bar with two blocks (a Vector3, stringy bytes, a UUID, a str with a
-   quote and a newline, a negative int, a tuple holding None and True; a float), a
+   quote and a newline, a negative int, a list holding None and True; a float), a
    present-but-empty block list E, packet id 7, meta, direction IN, flags 0x40, a bytearray
    extra, two acks in a tuple *)
 Definition ex_msg : msg :=
   mkMsg [70; 111; 111]
         [([66; 97; 114],
           [[([86], YCoord CVec3 [F15; F15; F15]); ([74], YBytes BJank [97; 0]); ([85], YUuid UHippo ex_uuid);
-            ([83], YStr [104; 39; 10]); ([73], YInt (-5)); ([84], YSeq STuple [YInt 1; YNone; YBool true])];
+            ([83], YStr [104; 39; 10]); ([73], YInt (-5)); ([84], YSeq SList [YInt 1; YNone; YBool true])];
            [([86], YFloat F15)]]);
          ([69], [])]
         (Some 7%Z) [([107], YInt 3)] false false DIn 64%Z BArray [1; 2] STuple [YInt 1; YInt 2].
+
+(* the template facts about it: Foo.Bar.V is an LLVector3, Foo.Bar.J a Variable that is not
+   probably_binary *)
+Definition ex_tk : tmpl := fun mn bn vn =>
+  if beq mn [70; 111; 111] && beq bn [66; 97; 114] then
+    if beq vn [86] then Some (KCoord CVec3) else if beq vn [74] then Some KStringy else None
+  else None.
 
 Definition ex_meta (ty me : list N) : list (list N * yv) :=
   [(K_RegionName, YStr [82]); (K_AgentID, YUuid UHippo ex_uuid); (K_SessionID, YNone); (K_AgentLocal, YInt 9);
@@ -830,8 +952,8 @@ Definition ex_eq_entry : lentry :=
 Definition ex_summ (p : payload) : list N := [115; 117; 109].
 
 Lemma ex_entries_ok :
-  wf_msg ex_msg = true /\ plain_msg ex_msg = false
-  /\ forallb (entry_ok ex_rreal ex_rdate ex_preal ex_pdate) [ex_entry; ex_eq_entry] = true
+  wf_msg ex_msg = true /\ plain_msg ex_msg = false /\ deser_classes ex_tk ex_msg = true
+  /\ forallb (entry_ok ex_rreal ex_rdate ex_preal ex_pdate ex_tk) [ex_entry; ex_eq_entry] = true
   /\ std_meta (le_payload ex_entry) (le_meta ex_entry) = true
   /\ std_meta (le_payload ex_eq_entry) (le_meta ex_eq_entry) = true.
 Proof. vm_compute. repeat split. Qed.
@@ -849,10 +971,16 @@ Lemma ex_export_import :
   export_payload ex_rreal ex_rdate ex_summ [ex_entry; ex_eq_entry] = Some ex_payload
   /\ gunz (gz (pyrepr ex_payload)) = Some (pyrepr ex_payload) /\ pyeval (pyrepr ex_payload) = Some ex_payload
   /\ bind (export_log_entries ex_rreal ex_rdate ex_summ pyrepr gz [ex_entry; ex_eq_entry])
-          (import_log_entries ex_preal ex_pdate pyeval gunz)
-     = Some [mkLE (Some [82]) (Some ex_uuid) (Some [115; 117; 109]) (ex_meta K_LLUDP K_IN) (PUdp (norm_msg ex_msg));
-             mkLE (Some []) None (Some [115]) (ex_meta K_EQ []) (le_payload ex_eq_entry)].
-Proof. vm_compute. split; [reflexivity|]. split; [reflexivity|]. split; reflexivity. Qed.
+          (import_log_entries ex_preal ex_pdate ex_tk pyeval gunz)
+     = Some [mkLE (Some [82]) (Some ex_uuid) (Some [115; 117; 109]) (ex_meta K_LLUDP K_IN) (PUdp (flat ex_msg));
+             mkLE (Some []) None (Some [115]) (ex_meta K_EQ []) (le_payload ex_eq_entry)]
+  /\ m_blocks (flat ex_msg) = m_blocks ex_msg
+  (* without the template facts the same message comes back in normal form only *)
+  /\ restore_msg (fun _ _ _ => None) (norm_msg ex_msg) <> Some (flat ex_msg).
+Proof.
+  vm_compute. split; [reflexivity|]. split; [reflexivity|]. split; [reflexivity|]. split; [reflexivity|].
+  split; [reflexivity|]. discriminate.
+Qed.
 
 Definition ex_pk (x : option msg) : list N := match x with None => [78] | Some _ => [1] end.
 Definition ex_unpk (b : list N) : option (option msg) :=
